@@ -1,13 +1,16 @@
 (* C08 — async concurrency: queue modes serialize, cancellation hits only its targets.
    Model: M.AsyncConc (interleaving semantics of the bookkeeping AsyncMachine keeps on top of asyncio:
    async_tasks, protected_tasks, current_context, the queue dictionary, model states).
+   Root call chains are started under ANY guard (a further start condition: `guard`), e.g. "the timer of the
+   AsyncTimeout state is armed" for the trigger awaited by an on_timeout callback — _process_timeout clears
+   current_context, so that trigger is a root call chain like a fresh task: every theorem below covers it.
    A schedule is ANY list of event ids (start that trigger task / release the future its callback awaits);
    event programs are ANY instruction lists; any number of tasks, models, nesting depth.
    PARTIAL by nature: task switching, gather, shield and the delivery of CancelledError are asyncio's and are
    assumed to behave as in the model (checked against /repo by the correspondence harness on every run).
    Statements only. *)
 From Coq Require Import List Arith Bool.
-From M Require Import AsyncConc.
+From M Require Import AsyncConc AsyncConcIO.
 From P Require Import AsyncConcP AsyncConcQ.
 Import ListNotations.
 
@@ -37,9 +40,9 @@ Proof. exact pass_step. Qed.
 (* For EVERY well-formed set of event programs, every queue mode, every set of top-level / protected triggers
    and EVERY schedule: the history of every event frame — live or finished — obeys the discipline [hist_ok]
    (Body -> cancel requested -> Finally, see AsyncConc.hstep), and every model state is a registered state. *)
-Theorem C08_frame_discipline : forall defs mode n top prot preds fuel inits sched,
+Theorem C08_frame_discipline : forall defs mode n top prot preds guard fuel inits sched,
   forallb (wf_def n) defs = true -> Forall (fun x => x < n) inits ->
-  let s := run_schedule defs mode top prot preds fuel (init_state mode inits) sched in
+  let s := run_schedule defs mode top prot preds guard fuel (init_state mode inits) sched in
   Forall hist_ok (live_hists s ++ done_hists s) /\ Forall (fun x => x < n) (h_mstate (s_sh s)).
 Proof. exact all_schedules_hists. Qed.
 
@@ -82,10 +85,10 @@ Proof. exact finish_resets. Qed.
    exception caught by the caller): an unfinished trigger task carries its own marker, a finished one has reset
    it, so a trigger started afterwards in the same asyncio task finds the marker EMPTY — it takes the registering
    branch of process_context, is listed in async_tasks and is cancelled like any fresh task. *)
-Theorem C08_context_reset : forall defs mode top prot preds fuel inits sched,
-  let s := run_schedule defs mode top prot preds fuel (init_state mode inits) sched in
+Theorem C08_context_reset : forall defs mode top prot preds guard fuel inits sched,
+  let s := run_schedule defs mode top prot preds guard fuel (init_state mode inits) sched in
   (forall t, In t (s_tasks s) -> (t_res t = None -> t_ctx t = Some (t_id t)) /\ (t_res t <> None -> t_ctx t = None)) /\
-  (forall e, can_start top preds s e = true -> inherited_ctx preds s e = None).
+  (forall e, can_start top preds guard s e = true -> inherited_ctx preds s e = None).
 Proof. exact all_schedules_ctx. Qed.
 
 (* ---- the state a transition set is not overwritten by an event it cancelled ---- *)
@@ -96,9 +99,9 @@ Proof. exact no_set_after_cancel. Qed.
 (* ---- quiescence: registered states, no bookkeeping for finished tasks ---- *)
 (* For every schedule async_tasks lists exactly the unfinished tasks (in registration order); so when every
    task has finished it is empty, and every model state is a registered state. *)
-Theorem C08_quiescent : forall defs mode n top prot preds fuel inits sched,
+Theorem C08_quiescent : forall defs mode n top prot preds guard fuel inits sched,
   forallb (wf_def n) defs = true -> Forall (fun x => x < n) inits ->
-  let s := run_schedule defs mode top prot preds fuel (init_state mode inits) sched in
+  let s := run_schedule defs mode top prot preds guard fuel (init_state mode inits) sched in
   h_reg (s_sh s) = reg_of (s_tasks s) /\
   (quiescent s = true -> h_reg (s_sh s) = [] /\ Forall (fun x => x < n) (h_mstate (s_sh s))).
 Proof. exact all_schedules_quiescent. Qed.
@@ -157,22 +160,22 @@ Proof. exact drain_exn_local. Qed.
 (* The log of every run in a queue mode is accepted by the serial scan AsyncConc.gscan: a body begins only while
    no body of the same queue is open and not below the queue's arrival bound; every other item belongs to an open
    body.  The three theorems below read this off. *)
-Theorem C08_global_scan : forall defs mode, mode <> QNone -> forall top prot preds fuel inits sched,
-  serial_log defs mode (h_log (s_sh (run_schedule defs mode top prot preds fuel (init_state mode inits) sched))).
+Theorem C08_global_scan : forall defs mode, mode <> QNone -> forall top prot preds guard fuel inits sched,
+  serial_log defs mode (h_log (s_sh (run_schedule defs mode top prot preds guard fuel (init_state mode inits) sched))).
 Proof. exact all_schedules_serial. Qed.
 
 (* queued=True, all models together: of any two bodies in the log, the later one begins only after the earlier one
    has ended (no overlap), and the bodies begin in strictly increasing arrival number (arrival order). *)
-Theorem C08_global_serial_fifo : forall defs top prot preds fuel inits sched l1 n e l2 n' e' l3,
-  h_log (s_sh (run_schedule defs QShared top prot preds fuel (init_state QShared inits) sched)) =
+Theorem C08_global_serial_fifo : forall defs top prot preds guard fuel inits sched l1 n e l2 n' e' l3,
+  h_log (s_sh (run_schedule defs QShared top prot preds guard fuel (init_state QShared inits) sched)) =
     l1 ++ GBegin n e :: l2 ++ GBegin n' e' :: l3 ->
   (exists e2 r, In (GEnd n e2 r) l2) /\ n < n'.
 Proof. exact shared_serial_fifo. Qed.
 
 (* queued='model': the same for two bodies of events of the SAME model (bodies of different models may interleave:
    nothing is claimed about them). *)
-Theorem C08_model_serial_fifo : forall defs top prot preds fuel inits sched l1 n e l2 n' e' l3,
-  h_log (s_sh (run_schedule defs QPerModel top prot preds fuel (init_state QPerModel inits) sched)) =
+Theorem C08_model_serial_fifo : forall defs top prot preds guard fuel inits sched l1 n e l2 n' e' l3,
+  h_log (s_sh (run_schedule defs QPerModel top prot preds guard fuel (init_state QPerModel inits) sched)) =
     l1 ++ GBegin n e :: l2 ++ GBegin n' e' :: l3 ->
   e_model (edef defs e) = e_model (edef defs e') ->
   (exists e2 r, In (GEnd n e2 r) l2 /\ e_model (edef defs e2) = e_model (edef defs e)) /\ n < n'.
@@ -181,9 +184,9 @@ Proof. exact model_serial_fifo. Qed.
 (* both queue modes: every item of the log lies inside the body of its own frame — after that frame's GBegin and
    before its GEnd.  With the two theorems above: between the first and the last step of one body no step of
    another body of the same queue occurs. *)
-Theorem C08_items_inside_body : forall defs mode top prot preds fuel inits sched l1 it l2,
+Theorem C08_items_inside_body : forall defs mode top prot preds guard fuel inits sched l1 it l2,
   mode <> QNone ->
-  h_log (s_sh (run_schedule defs mode top prot preds fuel (init_state mode inits) sched)) = l1 ++ it :: l2 ->
+  h_log (s_sh (run_schedule defs mode top prot preds guard fuel (init_state mode inits) sched)) = l1 ++ it :: l2 ->
   (forall n e, it <> GBegin n e) ->
   exists la e lc, l1 = la ++ GBegin (item_no it) e :: lc /\
                   (forall e' r, In (GEnd (item_no it) e' r) lc -> ekey defs mode e' <> ekey defs mode e).
@@ -192,8 +195,8 @@ Proof. exact items_inside_body. Qed.
 (* a trigger that arrives (after any schedule) while a body of its queue is in progress runs nothing: it returns
    True at once, the log, the model states and async_tasks are unchanged — or, if its model was removed
    (queued='model'), raises KeyError. *)
-Theorem C08_busy_defers : forall defs mode, mode <> QNone -> forall top prot preds fuel inits sched e op lb,
-  let s := run_schedule defs mode top prot preds fuel (init_state mode inits) sched in
+Theorem C08_busy_defers : forall defs mode, mode <> QNone -> forall top prot preds guard fuel inits sched e op lb,
+  let s := run_schedule defs mode top prot preds guard fuel (init_state mode inits) sched in
   gscan defs mode gstate0 (h_log (s_sh s)) = Some (op, lb) -> In (ekey defs mode e) (map fst op) ->
   (exists h', call_trigger defs mode e (s_sh s) = CalledRet (RBool true) h' /\
               h_log h' = h_log (s_sh s) /\ h_mstate h' = h_mstate (s_sh s) /\ h_reg h' = h_reg (s_sh s)) \/
@@ -229,7 +232,7 @@ Definition ex_defs : list evdef :=
   [mkEv 0 [0;1;2] [IPass; ICb 0 2 ANone; ISet 1] [ICb 0 FIN ANone];
    mkEv 0 [0;1;2] [IPass; ICb 0 2 ANone; ISet 2] [ICb 0 FIN ANone]].
 Example C08_example :
-  let s := run_schedule ex_defs QNone [0;1] [] [] 100 (init_state QNone [0]) [0;1;1;0;1;0] in
+  let s := run_schedule ex_defs QNone [0;1] [] [] (fun _ _ => true) 100 (init_state QNone [0]) [0;1;1;0;1;0] in
   forallb (wf_def 3) ex_defs = true /\ quiescent s = true /\ h_reg (s_sh s) = [] /\ h_mstate (s_sh s) = [2] /\
   map t_res (s_tasks s) = [Some (RBool false); Some (RBool true)] /\
   existsb is_cancel_mark (h_log (s_sh s)) = true.
@@ -241,7 +244,7 @@ Proof. vm_compute. repeat split; reflexivity. Qed.
 Definition begins_ends (l : list item) : list (bool * nat) :=
   flat_map (fun it => match it with GBegin n _ => [(true, n)] | GEnd n _ _ => [(false, n)] | _ => [] end) l.
 Example C08_example_queued :
-  let s := run_schedule ex_defs QShared [0;1] [] [] 100 (init_state QShared [0]) [0;1;0;1;0;1;1;1] in
+  let s := run_schedule ex_defs QShared [0;1] [] [] (fun _ _ => true) 100 (init_state QShared [0]) [0;1;0;1;0;1;1;1] in
   quiescent s = true /\ begins_ends (h_log (s_sh s)) = [(true,0); (false,0); (true,1); (false,1)] /\
   map t_res (s_tasks s) = [Some (RBool true); Some (RBool true)] /\ h_mstate (s_sh s) = [2].
 Proof. vm_compute. repeat split; reflexivity. Qed.
@@ -249,7 +252,7 @@ Definition ex_defs2 : list evdef :=
   [mkEv 0 [0;1;2] [IPass; ICb 0 2 ANone; ISet 1] [ICb 0 FIN ANone];
    mkEv 1 [0;1;2] [IPass; ICb 0 2 ANone; ISet 2] [ICb 0 FIN ANone]].
 Example C08_example_model :
-  let s := run_schedule ex_defs2 QPerModel [0;1] [] [] 100 (init_state QPerModel [0;0]) [0;1;0;1;0;1] in
+  let s := run_schedule ex_defs2 QPerModel [0;1] [] [] (fun _ _ => true) 100 (init_state QPerModel [0;0]) [0;1;0;1;0;1] in
   quiescent s = true /\ begins_ends (h_log (s_sh s)) = [(true,0); (true,1); (false,0); (false,1)] /\
   h_mstate (s_sh s) = [1;2].
 Proof. vm_compute. repeat split; reflexivity. Qed.
@@ -262,9 +265,26 @@ Definition ex_defs3 : list evdef :=
    mkEv 0 [0;1;2] [IPass; ICb 0 2 ANone; ISet 1] [];
    mkEv 0 [0;1;2] [IPass; ISet 2] []].
 Example C08_example_same_task :
-  let run := run_schedule ex_defs3 QNone [0;1;2] [] [(1,0)] 100 (init_state QNone [0]) in
-  can_start [0;1;2] [(1,0)] (run [0]) 1 = false /\               (* not before event 0 has returned *)
+  let run := run_schedule ex_defs3 QNone [0;1;2] [] [(1,0)] (fun _ _ => true) 100 (init_state QNone [0]) in
+  can_start [0;1;2] [(1,0)] (fun _ _ => true) (run [0]) 1 = false /\               (* not before event 0 has returned *)
   h_reg (s_sh (run [0;0;1])) = [(0, 1)] /\                       (* registered although event 0 raised before *)
   map t_res (s_tasks (run [0;0;1;2])) = [Some (RExn X_USER); Some (RBool false); Some (RBool true)] /\
   h_mstate (s_sh (run [0;0;1;2])) = [2] /\ h_reg (s_sh (run [0;0;1;2])) = [].
+Proof. vm_compute. repeat split; reflexivity. Qed.
+
+(* non-vacuity for a timeout-originated root call chain (guard = AsyncConcIO.timer_guard: armed iff the last
+   set_state of model 0 entered state 1): event 0 enters the timeout state 1; event 2 (awaited by on_timeout) cannot
+   start before that; once started it is registered in async_tasks with its own marker, and event 1, passing on the
+   same model, cancels it: it returns False and does not overwrite state 2. *)
+Definition ex_defs4 : list evdef :=
+  [mkEv 0 [0] [IPass; ISet 1] [];
+   mkEv 0 [1] [IPass; ISet 2] [];
+   mkEv 0 [1] [IPass; ICb 0 2 ANone; ISet 0] []].
+Example C08_example_timeout :
+  let g := timer_guard (Some (0, (1, 2))) in
+  let run := run_schedule ex_defs4 QNone [0;1;2] [] [] g 100 (init_state QNone [0]) in
+  can_start [0;1;2] [] g (run []) 2 = false /\ can_start [0;1;2] [] g (run [0]) 2 = true /\
+  h_reg (s_sh (run [0;2])) = [(0, 2)] /\ map t_ctx (s_tasks (run [0;2])) = [None; Some 2] /\
+  map t_res (s_tasks (run [0;2;1])) = [Some (RBool true); Some (RBool false); Some (RBool true)] /\
+  h_mstate (s_sh (run [0;2;1])) = [2] /\ h_reg (s_sh (run [0;2;1])) = [].
 Proof. vm_compute. repeat split; reflexivity. Qed.
